@@ -250,7 +250,12 @@ def render(vu):
             first = len(out) + 1
             out.extend(text.split("\n"))
             last = len(out)
-            oid = "%s.%s" % (vu.uid, kv.get("id", kv["fn"]))
+            impl_name = ""
+            if kv.get("impl"):
+                ids = re.findall(r"[A-Za-z_][A-Za-z0-9_]*", kv["impl"])
+                ids = [x for x in ids if x not in ("impl", "for")]
+                impl_name = (ids[-1] + "::") if ids else ""
+            oid = "%s.%s" % (vu.uid, kv.get("id", impl_name + kv["fn"]))
             ranges.append((first, last, oid, "extracted", (kv.get("impl", "") + "::" if kv.get("impl") else "") + kv["fn"]))
             exlog.append({"fn": kv["fn"], "file": kv["file"], "line": line, "body_sha": sha(body), "rules": sorted(rules)})
         elif ln.startswith("//@struct-check "):
